@@ -228,6 +228,10 @@ def all_family(name):
     return True
 
 
+def pp_family(name):
+    return name.startswith("pp_")
+
+
 def check(ctx):
     quick = ctx.tier == "quick"
     R = bee.reg()
@@ -333,6 +337,17 @@ def check(ctx):
         fl = "hooks" if (quick or n_ % 3) else "asan"      # thorough: every third input under the sanitizers, the rest on the plain build
         groups.append(bee.Group("C06", cid, x, lang, "defaults", {}, judge, all_family, None, 1, flavour=fl, quiet=False,
                                 env=env if fl == "asan" else None, deadline=dl, allow_lexer=True, meta={"universe": "singles"}))
+    # conditional-compilation blocks with unbalanced braces in one branch: bracket mutations of the #if/#elif/#else skeleton (C, and the
+    # same text as C#) x every pp_* option value (pp_unbalanced_if_action = 1 / 2 must warn resp. refuse WITH a diagnostic)
+    ppsrc = dict((n, s_) for n, l, s_ in skels)["c-pp-braces"]
+    for mid, x in token_mutations(ppsrc):
+        if not mid.startswith(("del", "dup")) or (b"{" not in x and b"}" not in x):
+            continue
+        if ppsrc.count(b"{") - ppsrc.count(b"}") == x.count(b"{") - x.count(b"}"):
+            continue            # only mutations that change the brace balance
+        for lang in ("C", "CS"):
+            groups.append(bee.Group("C06", "c-pp-braces:%s" % mid, x, lang, "defaults", {}, judge, pp_family, None, 1, flavour="hooks" if quick else "asan",
+                                    quiet=False, env=None if quick else env, deadline=dl, allow_lexer=True, meta={"universe": "pp-unbalanced"}))
     if quick:
         # a slice of the singles sweep under the sanitizers as well
         for cid, lang, x in single_inputs[::16]:
